@@ -7,6 +7,14 @@
 
 #include "QXmppLogger.h"
 
+#if QT_VERSION >= QT_VERSION_CHECK(6, 0, 0)
+#include <QStringDecoder>
+#else
+#include <QTextCodec>
+
+#include <memory>
+#endif
+
 class QDomElement;
 class QSslSocket;
 class TestStream;
@@ -53,6 +61,8 @@ public:
 
 private:
     void processData(const QString &data);
+    void resetIncomingState();
+    QString decodeIncoming(const QByteArray &data);
 
     friend class ::tst_QXmppStream;
 
@@ -62,6 +72,12 @@ private:
 
     // incoming stream state
     QString m_streamOpenElement;
+    // UTF-8 decoder that keeps an incomplete trailing sequence for the next read
+#if QT_VERSION >= QT_VERSION_CHECK(6, 0, 0)
+    QStringDecoder m_decoder { QStringDecoder::Utf8 };
+#else
+    std::unique_ptr<QTextDecoder> m_decoder;
+#endif
 };
 
 }  // namespace QXmpp::Private
